@@ -535,6 +535,7 @@ regp_init(RegP *p)
     p->ep.source = source_empty;
     p->ep.sink = sink_null;
     rfc1055_context_init(&p->ep.slip, RFC1055_DEFAULT);
+    p->ep.desync = false;
     p->alloc = &rp_default_allocator;
 }
 
@@ -562,8 +563,9 @@ regp_use_channel(RegP *p, RPEndpointType type, Source source, Sink sink)
     p->ep.type = type;
     p->ep.source = source;
     p->ep.sink = sink;
-    /* A new channel starts with a fresh decoder. */
+    /* A new channel starts with a fresh decoder, and in step. */
     rfc1055_context_init(&p->ep.slip, RFC1055_DEFAULT);
+    p->ep.desync = false;
 }
 
 void
@@ -867,11 +869,20 @@ regp_recv(RegP *p, RPMaybeFrame *mf)
 
     switch (p->ep.type) {
     case RP_EP_TCP: {
+        if (p->ep.desync) {
+            /* The rest of a frame that was dropped is still in the channel,
+             * and nothing tells where it ends. */
+            return -EPIPE;
+        }
         const ssize_t rc = lenp_decode_source_to_sink(&p->ep.source, &recv);
         if (rc < 0) {
             /* Channel error: the caller gets no frame, so the block the sink
              * may have allocated has to be released here. */
             if (cs.buffer.data != NULL) {
+                /* Part of the frame was received. What the channel delivers
+                 * next is the rest of it, not a length prefix: There is no
+                 * way back into step on this channel. */
+                p->ep.desync = true;
                 block_free(p->alloc, cs.buffer.data);
             }
             return rc;
